@@ -31,6 +31,7 @@ type c01ConcScenario struct {
 }
 
 type c01ConcReplay struct {
+	Stmt     bool            `json:"statement_level_scheduling"`
 	Kind     string          `json:"kind"`
 	Scenario c01ConcScenario `json:"scenario"`
 	Choices  []int           `json:"choices"`
@@ -196,50 +197,55 @@ func c01Concurrent(c *Ctx) {
 				c.Note("concurrent scenario %+v: statement paths differ between identical executions (map iteration order?): explored with access-based scheduling points only", sc)
 			}
 		}
-		stats := explore.Run(explore.Config{MaxCost: bound, Deadline: c.Deadline, Shard: c.Shard, Shards: c.Shards, ShardDepth: 2, TolerateDivergence: true, MaxDivergences: 16}, func(x *explore.Exec, own bool) {
-			out, v, berr := body(x)
-			if !own {
-				return
+		for _, pass := range concPasses(bound, len(vrt.AllStatements) > 0) {
+			if !pass.stmt {
+				vrt.AllStatements = nil
 			}
-			c.Inc("evaluations")
-			c.Inc("conc_executions")
-			c.Inc("traces_validated_against_impl")
-			c.Add("transitions", int64(out.Steps))
-			c.SetMax("conc_max_steps_per_execution", int64(out.Steps))
-			order := sched.DescribeOrder(out.Order)
-			c.Distinct("distinct_nontrivial", fmt.Sprintf("conc|%d|%s", si, order))
-			for _, r := range out.Races {
-				if c.Distinct("conc_distinct_unsynchronised_conflicts", r.Key()) {
-					c.Note("unsynchronised conflicting accesses (counted, not the deciding oracle): %s", r.Key())
+			stats := explore.Run(explore.Config{MaxCost: pass.bound, Deadline: c.Deadline, Shard: c.Shard, Shards: c.Shards, ShardDepth: 2, TolerateDivergence: true, MaxDivergences: 16}, func(x *explore.Exec, own bool) {
+				out, v, berr := body(x)
+				if !own {
+					return
 				}
+				c.Inc("evaluations")
+				c.Inc("conc_executions")
+				c.Inc("traces_validated_against_impl")
+				c.Add("transitions", int64(out.Steps))
+				c.SetMax("conc_max_steps_per_execution", int64(out.Steps))
+				order := sched.DescribeOrder(out.Order)
+				c.Distinct("distinct_nontrivial", fmt.Sprintf("conc|%d|%s", si, order))
+				for _, r := range out.Races {
+					if c.Distinct("conc_distinct_unsynchronised_conflicts", r.Key()) {
+						c.Note("unsynchronised conflicting accesses (counted, not the deciding oracle): %s", r.Key())
+					}
+				}
+				rp := c01ConcReplay{Kind: "concurrent-requests", Stmt: len(vrt.AllStatements) > 0, Scenario: sc, Choices: x.Choices(), Order: order}
+				if berr != "" {
+					rp.What = berr
+					key := "C01/concurrent/" + strings.Fields(berr)[0]
+					c.confirm(key, fmt.Sprintf("%+v: %s [thread order %s]", sc, berr, order), len(rp.Choices), rp, func() (string, bool) {
+						_, _, e2 := body(explore.Replay(rp.Choices, nil))
+						return key, e2 != ""
+					})
+					return
+				}
+				if key, msg := diff(v); key != "" {
+					rp.What = msg
+					c.confirm("C01/concurrent/"+key, fmt.Sprintf("%s [thread order %s]", msg, order), len(rp.Choices), rp, func() (string, bool) {
+						_, v2, e2 := body(explore.Replay(rp.Choices, nil))
+						k2, _ := diff(v2)
+						return "C01/concurrent/" + key, e2 == "" && k2 == key
+					})
+				}
+			})
+			c.Add("states", int64(stats.Executions))
+			vrt.AllStatements = every
+			if stats.Divergences > 0 {
+				c.Unstable("concurrent scenario %+v: %d executions did not reproduce their replayed prefix", sc, stats.Divergences)
 			}
-			rp := c01ConcReplay{Kind: "concurrent-requests", Scenario: sc, Choices: x.Choices(), Order: order}
-			if berr != "" {
-				rp.What = berr
-				key := "C01/concurrent/" + strings.Fields(berr)[0]
-				c.confirm(key, fmt.Sprintf("%+v: %s [thread order %s]", sc, berr, order), len(rp.Choices), rp, func() (string, bool) {
-					_, _, e2 := body(explore.Replay(rp.Choices, nil))
-					return key, e2 != ""
-				})
-				return
+			if !stats.Exhaustive {
+				c.Exhaustive = false
+				c.Note("concurrent part %+v: not exhaustive (level completed %d)", sc, stats.LevelCompleted)
 			}
-			if key, msg := diff(v); key != "" {
-				rp.What = msg
-				c.confirm("C01/concurrent/"+key, fmt.Sprintf("%s [thread order %s]", msg, order), len(rp.Choices), rp, func() (string, bool) {
-					_, v2, e2 := body(explore.Replay(rp.Choices, nil))
-					k2, _ := diff(v2)
-					return "C01/concurrent/" + key, e2 == "" && k2 == key
-				})
-			}
-		})
-		c.Add("states", int64(stats.Executions))
-		vrt.AllStatements = every
-		if stats.Divergences > 0 {
-			c.Unstable("concurrent scenario %+v: %d executions did not reproduce their replayed prefix", sc, stats.Divergences)
-		}
-		if !stats.Exhaustive {
-			c.Exhaustive = false
-			c.Note("concurrent part %+v: not exhaustive (level completed %d)", sc, stats.LevelCompleted)
 		}
 	}
 }
@@ -252,6 +258,9 @@ func c01ConcReplayOne(c *Ctx, rp c01ConcReplay) string {
 	defer e.up.Close()
 	vrt.Enabled = true
 	vrt.AllStatements = map[string]bool{"pkg/middleware": true}
+	if !rp.Stmt {
+		vrt.AllStatements = nil
+	}
 	defer func() { vrt.Enabled = false; vrt.AllStatements = nil }()
 	px, err := c01ConcProxy(e)
 	if err != nil {
